@@ -7,9 +7,9 @@ import (
 
 // The mutation family is a finite grid of points (operator, offset, value) that is
 // the same for every seed; a point applies to a seed when the bytes it touches exist
-// and the result differs from the seed. The canonical grid order is the enumeration
-// order (operator major, then offset, then value), so a deadline leaves a prefix of
-// the grid that was applied to *every* seed.
+// and the result differs from the seed. The canonical grid order (see Grid) is the
+// enumeration order, so a deadline leaves a prefix of the grid that was applied to
+// *every* seed.
 
 type Mut struct {
 	Op  string `json:"op"`  // intact trunc tail byte w2 w4 rm1 rm4 rm16 rm512 dup1 dup4 dup16 dup512
@@ -67,31 +67,39 @@ func winBytes(w, val int) []byte {
 	return b
 }
 
-// Grid returns every point of the family for bounds T (truncation) and O (offsets).
+// Grid returns every point of the family for bounds T (truncation) and O (offsets),
+// in enumeration order: the tail truncations first, then offset major (all operators
+// and values at offset 0, then at offset 1, ...), so that a deadline leaves "every
+// operator at every offset < X" rather than "some operators at all offsets".
 func Grid(T, O int) []Mut {
 	var g []Mut
-	for l := 0; l <= T; l++ {
-		g = append(g, Mut{"trunc", l, 0})
-	}
 	for k := 8; k >= 1; k-- {
 		g = append(g, Mut{"tail", k, 0})
 	}
-	for off := 0; off < O; off++ {
+	max := T
+	if O-1 > max {
+		max = O - 1
+	}
+	for off := 0; off <= max; off++ {
+		if off <= T {
+			g = append(g, Mut{"trunc", off, 0})
+		}
+		if off >= O {
+			continue
+		}
 		for v := range byteValNames {
 			g = append(g, Mut{"byte", off, v})
 		}
-	}
-	for _, w := range []int{2, 4} {
-		for off := 0; off < O; off += w {
-			for v := range winValNames {
-				g = append(g, Mut{fmt.Sprintf("w%d", w), off, v})
+		for _, w := range []int{2, 4} {
+			if off%w == 0 {
+				for v := range winValNames {
+					g = append(g, Mut{fmt.Sprintf("w%d", w), off, v})
+				}
 			}
 		}
-	}
-	for _, op := range []string{"rm", "dup"} {
 		for _, b := range blockSizes {
-			for off := 0; off < O; off += b {
-				g = append(g, Mut{fmt.Sprintf("%s%d", op, b), off, 0})
+			if off%b == 0 {
+				g = append(g, Mut{fmt.Sprintf("rm%d", b), off, 0}, Mut{fmt.Sprintf("dup%d", b), off, 0})
 			}
 		}
 	}
